@@ -173,6 +173,13 @@ func ZZVerifC05Tamper() {
 	}
 	_, ok := zzRead(reader, "f", rstream)
 	nd.Assert(!ok, label+"-must-be-error")
+	// the refused read leaves nothing behind: the owner can replace the
+	// damaged file and read it again (a reader left open on the error path
+	// would keep the file locked: reported as a deadlock)
+	pt2 := []byte("z")
+	nd.Assert(enc.WriteFile("f", pt2, filesystem.DefaultUnixFileMode) == nil, "C05/rewrite-after-refused-read")
+	got2, err2 := enc.ReadFile("f")
+	nd.Assert(err2 == nil && bytes.Equal(got2, pt2), "C05/roundtrip-after-refused-read")
 	nd.Reach("C05/tamper-end")
 }
 
